@@ -146,6 +146,25 @@ def run(ctx):
             for p in (plain, plain + ".gz"):
                 jobs.append({"kind": "tool", "path": p, "flags": ["-c", "-j", "-b", "-p", "--inter-stem-csv", "--stems-csv"]})
                 jobs.append({"kind": "tool", "path": p, "flags": ["-f", "-a", "--stems-csv"]})
+    # residues under names the one-letter table does not know, with the atoms that tell the bases apart left out (a
+    # pyrimidine without O4 / N4, a purine without O6 / N6 / N2): the letter is then chosen among equally good candidates
+    src = os.path.join(tdir, "1ATO.pdb")
+    if os.path.exists(src):
+        drop = {"U": ("PYO", {"O4"}), "C": ("PYC", {"N4"}), "G": ("PUG", {"O6", "N2"}), "A": ("PUA", {"N6"})}
+        seen, lines = {}, []
+        for ln in open(src).read().splitlines():
+            if ln.startswith(("ATOM", "HETATM")) and ln[17:20].strip() in drop:
+                key = (ln[21], ln[22:27])
+                seen.setdefault(key, len(seen))
+                if seen[key] % 3 == 0:
+                    new, gone = drop[ln[17:20].strip()]
+                    if ln[12:16].strip() in gone:
+                        continue
+                    ln = "HETATM" + ln[6:17] + new + ln[20:]
+            lines.append(ln)
+        amb = os.path.join(cdir, "ambiguous-bases-1ATO.pdb")
+        open(amb, "w").write("\n".join(lines) + "\n")
+        jobs.append({"kind": "file", "path": amb, "find_gaps": False, "all": True})
     # adapter path: corpus structure + FR3D listings in which one nucleotide has several competing canonical pairs
     for _ in range(ctx.pick(6, 40)):
         jobs.append({"kind": "external", "path": os.path.join(tdir, "184D.cif"), "listing": fr3d_listing(rng), "find_gaps": False})
